@@ -117,9 +117,11 @@ def defs : Defs
       (errorAndEat "expected 'assert', 'def', 'defm', 'dump', 'foreach', 'let', or 'if' in multiclass body")
   | .defm => seqs [startNode .Defm, assertTok .Defm, call .object_name, call .parent_class_list,
       expect .Semi (some "expected ';' at end of defm"), finishNode]
-  | .defset => seqs [startNode .Defset, assertTok .Defset, call .type_, call .identifier,
+  | .defset => seqs [startNode .Defset, assertTok .Defset, call .type_,
+      orError (call .identifier) "expected identifier after type in defset",
       expect .Equal none, call .statement_list_block, finishNode]
-  | .defvar => seqs [startNode .Defvar, assertTok .Defvar, call .identifier, expect .Equal none,
+  | .defvar => seqs [startNode .Defvar, assertTok .Defvar,
+      orError (call .identifier) "expected identifier after defvar", expect .Equal none,
       call .value, expect .Semi none, finishNode]
   | .dump => seqs [startNode .Dump, assertTok .Dump, call .value, expect .Semi none, finishNode]
   | .foreach => seqs [startNode .Foreach, assertTok .Foreach, call .foreach_iterator, expect .In none,
@@ -145,7 +147,7 @@ def defs : Defs
   | .record_body => seqs [startNode .RecordBody, call .parent_class_list, call .body, finishNode]
   | .parent_class_list => seqs [startNode .ParentClassList,
       ifEatIf .Colon (sepLoop (call .class_ref) .Comma) nop, finishNode]
-  | .class_ref => seqs [startNode .ClassRef, call .identifier,
+  | .class_ref => seqs [startNode .ClassRef, orError (call .identifier) "expected name of a class or multiclass",
       ifEatIf .Less (seq (call .arg_value_list) (expect .Greater (some "expected '>' in template value list"))) nop,
       finishNode]
   | .arg_value_list => seqs [startNode .ArgValueList,
@@ -210,8 +212,9 @@ def defs : Defs
   | .range_list => seqs [startNode .RangeList, sepLoop (call .range_piece) .Comma, finishNode, retB true]
   | .range_piece => seqs [startNode .RangePiece,
       orError (call .integer) "expected integer or bitrange",
-      ifAt [.DotDotDot, .Minus] eat nop,
-      ifAt [.IntVal] (orError (call .integer) "expected integer value as end of range") nop,
+      ifAt [.DotDotDot, .Minus]
+        (seq eat (orError (call .integer) "expected integer value as end of range"))
+        (ifAt [.IntVal] (orError (call .integer) "expected integer value as end of range") nop),
       finishNode, retB true]
   | .slice_suffix => seqs [startNode .SliceSuffix, assertTok .LSquare, call .slice_elements,
       expect .RSquare (some "expected ']' at end of list slice"), finishNode, retB true]
